@@ -14,6 +14,7 @@ import random
 import struct
 
 import vlib
+from checks import c39ext
 
 PROPS = ["TfelVerif.C39.Props"]
 VARIANTS = [("late", "eff"), ("late", "raw"), ("early", "eff"), ("early", "raw")]
@@ -381,7 +382,16 @@ def wrapper_shape():
     a = src2.index("void BehaviourInterfaceBase::writeGetOutOfBoundsPolicyFunctionImplementation(")
     b = src2.index("void BehaviourInterfaceBase::writeSetParametersFunctionsDeclarations(")
     l2, s2 = cxx_shape(src2[a:b])
-    return {"wrapper": {"literals": l, "skeleton": s}, "policy": {"literals": l2, "skeleton": s2}}
+    # the entry points generated for the @InitializeFunction / @PostProcessing blocks (executeInitializeFunction,
+    # executePostProcessing of Integrate.hxx): same policy getter, `return r`
+    a = src.index("// initialize functions")
+    b = src.index("// behaviour integration", a)
+    l3, s3 = cxx_shape(src[a:b])
+    a = src.index("// postprocessings", src.index('<< "(mfront_gb_BehaviourData* const d){\\n"'))
+    b = src.index("}  // end of endTreatment", a)
+    l4, s4 = cxx_shape(src[a:b])
+    return {"wrapper": {"literals": l, "skeleton": s}, "policy": {"literals": l2, "skeleton": s2},
+            "initfn": {"literals": l3, "skeleton": s3}, "postproc": {"literals": l4, "skeleton": s4}}
 
 
 def check_wrapper(ck):
@@ -395,7 +405,9 @@ def check_wrapper(ck):
         return False
     ok = True
     for part, where in (("wrapper", "mfront/src/GenericBehaviourInterface.cxx (behaviour integration function)"),
-                        ("policy", "mfront/src/BehaviourInterfaceBase.cxx (get/setOutOfBoundsPolicy)")):
+                        ("policy", "mfront/src/BehaviourInterfaceBase.cxx (get/setOutOfBoundsPolicy)"),
+                        ("initfn", "mfront/src/GenericBehaviourInterface.cxx (initialize functions entry points)"),
+                        ("postproc", "mfront/src/GenericBehaviourInterface.cxx (post-processings entry points)")):
         if cur[part] != golden[part]:
             ok = False
             gl, cl = golden[part]["literals"], cur[part]["literals"]
@@ -595,11 +607,14 @@ def build_harness(ck):
     """the 2 x 16 instantiations of integrate<Mock> and the main program are three objects built in parallel"""
     from concurrent.futures import ThreadPoolExecutor
     inc = [vlib.REPO + "/mfront/include"]
-    with ThreadPoolExecutor(max_workers=3) as ex:
+    with ThreadPoolExecutor(max_workers=4) as ex:
         futs = [ex.submit(ck.cxx, "c39h_part%d.o" % k, ["C39/harness.cxx"], includes=inc,
                           flags=HARNESS_FLAGS + ["-c", "-DC39_PART=%d" % k]) for k in (0, 1)]
         futs.append(ex.submit(ck.cxx, "c39h_main.o", ["C39/harness.cxx"], includes=inc, flags=HARNESS_FLAGS + ["-c"]))
+        # second harness (exportTangentOperator overloads, executeInitializeFunction, executePostProcessing): checks/c39ext.py
+        f2 = ex.submit(c39ext.build, ck)
         objs = [f.result() for f in futs]
+        ck.c39h2 = f2.result()
     return ck.cxx("c39h", objs + HARNESS_SOURCES, includes=inc, flags=HARNESS_FLAGS)
 
 
@@ -713,6 +728,8 @@ def run(ck):
         # one line for the broken tie, whatever the number of differing answers
         report("corr:integrate", "correspondence Model.lean (variant %s/%s) vs %s broken on %d answers on which the C39 predicate is still satisfied"
                % (variant[0], variant[1], SITE, len(corr)), {"differing_answers": len(corr), "examples": corr[:5]}, False)
+    h2_n, h2_fail, h2_hist = c39ext.run(ck, ck.c39h2, "C39", reported)
+    failing += h2_fail
     e2e_n, e2e_fail = 0, 0
     if not ck.quick:
         e2e = run_e2e(ck, rng)
@@ -722,6 +739,7 @@ def run(ck):
             ck.violation("leanchecker:" + m, "leanchecker rejects %s" % m, {"log": msg}, False)
     ck.assumptions += [
         "M: Model.lean is tied to Integrate.hxx by differential execution of the real templates instantiated with a scripted mock behaviour (harness/C39/mock.hxx): identical event trace, return value, rdt bits, written buffers, error message on every request",
+        "exportTangentOperator (every overload, every alternative of the finite strain GenType, 1D/2D/3D), executeInitializeFunction and executePostProcessing are not part of Model.lean: they are run exhaustively over their scripts (harness/C39/harness2.cxx) against the reference written in checks/c39ext.py, and the property's predicates (policy handed over before initialize(), -1 iff a step failed, K buffer = the behaviour's operator, caller's pointers restored) are evaluated on every answer",
         "the mock stands for every generated behaviour: Integrate.hxx only sees a behaviour through the methods and traits the mock scripts; the code generated around it by GenericBehaviourInterface.cxx (wrapper passing d, STANDARDTANGENTOPERATOR and <name>_getOutOfBoundsPolicy(), returning r unchanged; setOutOfBoundsPolicy 0/1/2 -> None/Warning/Strict) is not executed here: its emitter is compared, literal by literal and by code skeleton, with the one that was read (corpus/C39/wrapper_shape.json)",
         "K[0] arithmetic is modelled over an ordered field: `K[0] - 100` is exact in double for 50 < K[0] <= 200 (Sterbenz) and cannot cross a frontier above; NaN/inf requests are covered by the correspondence only",
         "documented table: docs/web/generic-behaviours-interface.md has no K[0] table in this tree; the table used is the one of the property statement (codes -3..4, +100 speed-of-sound flag) and of docs/web/release-notes-3.3.md for K[1], K[2]",
@@ -735,4 +753,5 @@ def run(ck):
         "return_value_histogram": dict(hist), "failure_kind_histogram": dict(kinds),
         "traces_validated_against_impl": n, "samples": samples,
         "generated_behaviour_calls": e2e_n, "generated_behaviour_property_failures": e2e_fail,
+        "second_harness_requests": h2_n, "second_harness_request_kinds": h2_hist,
     })
